@@ -59,6 +59,7 @@ class _AsyncTimeout[**Args, Result]:
 
     async def __call__(
         self,
+        /,
         *args: Args.args,
         **kwargs: Args.kwargs,
     ) -> Result:
